@@ -267,6 +267,19 @@ def check_struct(res, N, bl, strand, frames, gname, seq_checks=True):
             res.note("translate", "protein")
             if o[0] != "ok" or str(o[1]) != ep:
                 res.deviation("translate", c, str(o[1]) if o[0] == "ok" else o[1], ep, sig="translate")
+    # one object, asked for its protein under one table and then under another (every ordered pair of tables): each answer is
+    # the answer a fresh object gives
+    for t1, t2 in itertools.permutations((0, 1, 11), 2):
+        cds7 = mk(bl, strand, frames, genome)
+        lib.outcome(lambda: cds7.translate(translation_table=TABLES[t1]))
+        o = lib.outcome(lambda: cds7.translate(translation_table=TABLES[t2]))
+        res.trans()
+        try:
+            ep = F.translate(exp_codon_strs, t2, False, True)
+        except ValueError:
+            ep = None
+        if ep is not None and (o[0] != "ok" or str(o[1]) != ep):
+            res.deviation("translate", dict(op="translate-second-table", first=t1, second=t2, **case), str(o[1]) if o[0] == "ok" else o[1], ep, sig="translate-second-table")
     # predicates
     cds6 = mk(bl, strand, frames, genome)
     first, last = exp_codon_strs[0].upper(), exp_codon_strs[-1].upper()
